@@ -435,7 +435,7 @@ def rendered_cases(draw):
 
 class Rendered(Facet):
     name = "rendered"
-    examples = {"quick": 6000, "thorough": 300000}
+    examples = {"quick": 6000, "thorough": 200000}
     shards = {"quick": 16, "thorough": 16}
 
     def strategy(self, tier):
